@@ -14,7 +14,7 @@ from verif.contracts.common import (Obligation, Result, Sym, sym_call, Interp, R
                                     PROVED, REFUTED, UNDECIDED, ERROR, is_sym, isc, seed, witness_arrays)
 
 LEVEL = 'other'
-EXPECTED_MIN = {'quick': 14, 'thorough': 15}
+EXPECTED_MIN = {'quick': 36, 'thorough': 37}
 EXPLANATION = ('PROVED: the custom tangent rules of safe_arccos / safe_arcsin have a denominator bounded away from 0 for ALL x and equal the analytic derivative for |x| <= 1-1e-7; the '
                'forward-mode derivative programs of safe_norm, normalize, quat_to_3x3, orthogonals, quat_rot_axis, ang_to_quat / quat_mul_ang, signed_angle (unit references perpendicular to the axis), from_to (w >= 1e-6), quat_to_euler (off the gimbal lock), com.inv_inertia, the spring and positional integrator steps are defined (no division by zero, no negative radicand) for '
                'all inputs in their preconditions, singular inputs included.  BOUNDED (not proof): jax.grad of a weighted state sum after init + 1-3 steps vs central differences in '
